@@ -16,6 +16,11 @@ RULES = {
 OUTSIDE = {'RecursionError', 'MemoryError'}
 
 
+def _key_absent(o):
+    return any(isinstance(a, T.Sym) and a.op == 'notin'
+               for a in o.state.kn.atoms)
+
+
 def escape_key(o):
     chain = list(o.exc.chain)
     origin = chain[-1] if chain else '?'
@@ -45,6 +50,10 @@ def run(chk, ctx):
         nonlocal n_out
         for o in f.raises:
             in_method = 'frame._unmarshal_method_frame' in o.exc.chain
+            if not only_method and in_method and _key_absent(o):
+                # the unspecialised run is the only one that takes the
+                # "no such method" path of the dispatch-table lookup
+                in_method = False
             if only_method != in_method:
                 continue
             n_out += 1
